@@ -26,6 +26,7 @@ class Env(object):
         self.tag = tag
         self.enums = {}
         self.classes = {}
+        self.globals = {}        # stand-alone vsc fields referenced by {"t": "g"} (set by the check)
         for e in self.prog.prog.get("enums", []):
             self.enums[e["name"]] = enum.IntEnum(e["name"] + tag,
                                                  [(n, v) for (n, v) in e["items"]])
@@ -233,6 +234,9 @@ class Env(object):
             return self.path(e["p"], o, loops)
         if t == "lit":
             return e["v"]
+        if t == "g":
+            # a stand-alone field that lives outside every object
+            return self.globals[e["n"]]
         if t == "slit":
             return vsc.signed(e["v"], e.get("w", -1))
         if t == "ulit":
